@@ -3,6 +3,8 @@ package props
 import (
 	"fmt"
 	"unicode/utf8"
+
+	"golang.org/x/sys/unix"
 	"sort"
 	"strings"
 
@@ -107,15 +109,15 @@ func (g *Gen) NameComponent(plain bool) string {
 
 // TreeOpts steer tree generation.
 type TreeOpts struct {
-	MaxEntries  int
-	ByteBudget  int64
-	PlainNames  bool
-	Symlinks    bool
-	Specials    bool // fifos, sockets
-	Devices     bool
-	MaxDepth    int
-	FixedPerms  bool // everything 0644/0755
-	FixedMtime  bool
+	MaxEntries int
+	ByteBudget int64
+	PlainNames bool
+	Symlinks   bool
+	Specials   bool // fifos, sockets
+	Devices    bool
+	MaxDepth   int
+	FixedPerms bool // everything 0644/0755
+	FixedMtime bool
 }
 
 // Tree draws a source tree.
@@ -191,12 +193,14 @@ func (g *Gen) Tree(o TreeOpts) fstree.Tree {
 			e.Perm = g.Perm(false, o.FixedPerms)
 			e.Rdev = uint64(1<<8 | 3) // /dev/null's numbers
 			if g.R.Bool() {
-				e.Rdev = uint64(g.R.Intn(255)<<8 | g.R.Intn(255))
+				// minors above 255 use the upper bits of the Linux dev_t encoding
+				minor := []uint32{0, 1, 255, 256, 257, 1000, 65535, 1 << 19}[g.R.Intn(8)]
+				e.Rdev = unix.Mkdev(uint32(1+g.R.Intn(250)), minor)
 			}
 		case kind == 9 && o.Devices:
 			e.Type = "blk"
 			e.Perm = g.Perm(false, o.FixedPerms)
-			e.Rdev = uint64(7<<8 | g.R.Intn(64))
+			e.Rdev = unix.Mkdev(7, []uint32{0, 5, 63, 256, 300, 4095}[g.R.Intn(6)])
 		default:
 			e.Type = "f"
 			e.Perm = g.Perm(false, o.FixedPerms)
@@ -265,6 +269,10 @@ func (g *Gen) Mtime(fixed bool) int64 {
 }
 
 func (g *Gen) LinkTarget() string {
+	if g.R.Intn(4) == 0 {
+		// non-canonical spellings must be reproduced verbatim
+		return []string{"sub/", "./file", "a/../b", "a//b", "./", "..", "/", "x/./y", "../", "a/b/../../c/"}[g.R.Intn(10)]
+	}
 	switch g.R.Intn(6) {
 	case 0:
 		return "/nonexistent/absolute/" + g.NameComponent(true)
